@@ -1562,6 +1562,11 @@ def simp_cond_logic_ext(expr_s, expr):
     if len(sizes) != 1:
         return expr
     size = list(sizes)[0]
+    if cond.op != '&' and any(
+            arg.is_int() and int(arg) >> size for arg in cond.args
+    ):
+        # High bits of the constant make the condition non null
+        return expr
     args = [expr_s(arg[:size]) for arg in cond.args]
     cond = ExprOp(cond.op, *args)
     return ExprCond(cond, expr.src1, expr.src2)
